@@ -157,3 +157,63 @@ func runRSS14Distorted() {
 			}
 		})
 }
+
+// runRSS14LongHistory: ONE RSS-14 reader object kept for many symbols (no Reset): it remembers every
+// pair it has seen, so its candidate lists grow with the history. 150 distinct valid symbols, three
+// scan lines each (every pair becomes a confirmed one), then the same symbols reversed, then
+// garbage rows; afterwards Reset and one more symbol. Every call returns a result or an error.
+func runRSS14LongHistory() {
+	outs := []int{0, 160, 161, 960, 961, 2014, 2015, 2714, 2715, 2840}
+	ins := []int{0, 335, 336, 1035, 1036, 1515, 1516, 1596}
+	chk.Range("ONE RSS-14 reader kept for 150 distinct valid symbols x 3 scan lines (no Reset), their reversals, garbage rows, then Reset and another symbol: every DecodeRow call returns a result or an error", 2,
+		func(i int) string { return fmt.Sprint("history variant ", i) },
+		func(l *mc.Local, variant int) {
+			rd := rss.NewRSS14Reader()
+			dec := rd.(rowDecoder)
+			call := 0
+			show := func(b []bool, what string) bool {
+				var r *gozxing.Result
+				var e error
+				row := toBitArray(b)
+				cs := rcase{Kind: "row", Target: "RSS14", Bits: rowStr(b), Extra: fmt.Sprintf("call %d on ONE reader kept for many symbols (history variant %d): %s", call+1, variant, what)}
+				l.Beat("")
+				pm, site := mc.Guard(func() { r, e = dec.DecodeRow(call%7, row, nil) })
+				call++
+				outcome(l, "row/RSS14/long-history", pm, site, r, e, cs, false)
+				return pm == ""
+			}
+			n := 0
+			for a := 0; a < len(outs) && n < 150; a++ {
+				for b := 0; b < len(ins) && n < 150; b++ {
+					for c := 0; c < 2 && n < 150; c++ {
+						lo, li := outs[(a+variant)%len(outs)], ins[b]
+						ro, ri := outs[(a*3+b+c*5)%len(outs)], ins[(b*5+a+c*3+variant)%len(ins)]
+						mods, err := refoned.RSS14FromCharacters(lo, li, ro, ri)
+						if err != nil {
+							panic("harness: " + err.Error())
+						}
+						row := append(append(make([]bool, 12), mods...), make([]bool, 12)...)
+						for k := 0; k < 3; k++ {
+							if !show(row, fmt.Sprintf("symbol %d (characters %d,%d,%d,%d), scan line %d", n+1, lo, li, ro, ri, k+1)) {
+								return
+							}
+						}
+						if n%10 == 9 {
+							rev := make([]bool, len(row))
+							for k := range row {
+								rev[len(row)-1-k] = row[k]
+							}
+							if !show(rev, "the same symbol reversed") || !show(make([]bool, 90), "a blank row") {
+								return
+							}
+						}
+						n++
+					}
+				}
+			}
+			rd.Reset()
+			mods, _ := refoned.RSS14FromCharacters(5, 7, 11, 13)
+			show(append(append(make([]bool, 12), mods...), make([]bool, 12)...), "after Reset")
+			l.Count("RSS-14 symbols shown to one reader", int64(n))
+		})
+}
